@@ -2,7 +2,7 @@
    inversion lemmas for bind / guard / the mutating primitives, and the fact that reading the
    layers (FindLayers + ProbeAllLayerstate) is a pure function of the world. *)
 From LC Require Import Lib.Bytes Lib.Lex Lib.Fields Lib.PathM Gen.Consts
-  Model.MountInfo Model.FsTree Model.Kernel Model.Layers Cases.Verdict Cases.LC Proofs.MonadP.
+  Model.MountInfo Model.FsTree Model.Kernel Model.Layers Cases.Verdict Cases.LC .
 
 Definition plain_e (e : env) : Prop := e_pretend e = false /\ e_fault e = NoFault.
 
